@@ -285,3 +285,49 @@ C09_E2_EXCEPTIONS = {
 C08_NO_DIRECT_PII = {
     'midnight_circuits::verifier::msm::AssignedMsm': 'exposed only as part of AssignedAccumulator (VerifierGadget impl), through AssignedMsm::{in_circuit_as_public_input, constrain_as_public_input}',
 }
+
+# ---------------------------------------------------------------- D-lints
+_NC = 'midnight_circuits::field::native::native_chip::NativeChip'
+D1_TABLE = {
+    '<' + _NC + ' as midnight_circuits::instructions::assignments::AssignmentInstructions>::assign|assign element':
+        'free-witness entry point: AssignmentInstructions::assign is the deliberate way to introduce an unconstrained private input',
+    '<' + _NC + ' as midnight_circuits::instructions::assignments::AssignmentInstructions>::assign_many|assign':
+        'free-witness entry point (batched assign)',
+    'midnight_circuits::hash::ripemd160::ripemd160_chip::RipeMD160Chip::assign_left_rotation|*':
+        'Region helper without its own selector: its only caller left_rotate enables q_rot at the same offsets in the same region closure',
+}
+D3_TABLE = {
+    'midnight_circuits::ecc::foreign::ecc_chip::ForeignEccChip::load_multi_select_table|discarded-result':
+        'fill_dynamic_lookup_row(.., enable_lookup = false) copies the table point into the row: the row itself is the effect, the returned cells are not needed',
+    'midnight_circuits::hash::poseidon::poseidon_chip::PoseidonChip::partial_round|let-underscore':
+        'intermediary advice cells of a partial round are constrained by position through the additive-selector gate enabled on that row (the construct is a C09 finding for another reason)',
+    'midnight_circuits::hash::sha256::sha256_chip::Sha256Chip::assign_sprdd_11_11_10|discarded-result':
+        'assign_plain_and_spreaded enables the spread-table lookup on its own row; the decomposition gate reads the cells by position',
+    'midnight_circuits::hash::sha512::sha512_chip::Sha512Chip::assign_sprdd_13x4_12|discarded-result':
+        'assign_plain_and_spreaded enables the spread-table lookup on its own row; the decomposition gate reads the cells by position',
+    'midnight_circuits::hash::sha256::sha256_chip::Sha256Chip::prepare_A|unused-binding':
+        '`_zeros`: the zero limb is range-checked by the lookup enabled in assign_sprdd and read by the gate by position',
+    'midnight_circuits::hash::sha256::sha256_chip::Sha256Chip::assign_add_mod_2_32|unused-binding':
+        '`_carry`: the carry is range-checked by its assignment helper and consumed by the addition gate by position',
+    'midnight_circuits::hash::sha512::sha512_chip::Sha512Chip::assign_add_mod_2_64|unused-binding':
+        '`_carry`: the carry is range-checked by its assignment helper and consumed by the addition gate by position',
+}
+
+_D_COMMON = ('Constraint-flow lints over HIR/MIR of the files of this property: D1 every witnessed advice cell lies under an activated constraint at a matching '
+             'offset; D3 no assigned-cell value is computed and then ignored in gadget-level code; D4 invariant-carrying assigned types and *_unsafe escape '
+             'hatches are used only in the frozen who-may-construct table; D5 every (function, check) pair that is unconditional on the reference tree stays '
+             'on every success path. These are necessary conditions for "no unconstrained hint / no dropped constraint". ')
+D_EXPLANATION = {
+    'C04': _D_COMMON + 'NOT decided: that the arithmetic identity, coefficients and decomposition arithmetic are right, and completeness for all inputs — a changed coefficient is invisible here.',
+    'C05': _D_COMMON + 'NOT decided: CRT bound arithmetic, limb-bound bookkeeping values, correctness of quotients/carries.',
+    'C06': _D_COMMON + 'NOT decided: the group-law algebra and the exceptional cases of incomplete addition.',
+    'C07': _D_COMMON + 'NOT decided: equality with SHA-2 / RIPEMD / Keccak / BLAKE2 / Poseidon as functions, round constants (third-party Keccak/BLAKE2b chips are outside the repository; only the wrappers are analysed).',
+    'C19': _D_COMMON + 'Covers only the in-circuit parser / base64 chips. NOT decided: language equivalence of compiled automata, determinisation/minimisation, shipped serialized automata, base64 as a function.',
+}
+D_FLOORS = {
+    'C04': dict(advice=24, gadget_fns=150, d4=30, mustcall=40),
+    'C05': dict(advice=5, gadget_fns=60, d4=20, mustcall=20),
+    'C06': dict(advice=20, gadget_fns=60, d4=20, mustcall=30),
+    'C07': dict(advice=45, gadget_fns=60, d4=1, mustcall=5),
+    'C19': dict(advice=3, gadget_fns=15, d4=3, mustcall=4),
+}
